@@ -1,0 +1,160 @@
+//! Verification hook H4 (compiled only with `--cfg humphrey_verif`): an ordered event log of the asynchronous
+//! WebSocket app's poll loop, keyed by the thread that runs `AsyncWebsocketApp::run` (the loop is single-threaded).
+//!
+//! One iteration's events are buffered and committed at its end. An iteration in which nothing but "no message yet"
+//! was observed is not stored; such iterations are counted and reported as one `idle,<n>,<start of the last one>,<largest
+//! gap between two consecutive iteration starts in the run>` event in front of the next stored iteration (a zero poll
+//! interval would otherwise produce millions of identical entries). A stored iteration starts with
+//! `it,<n>,<start>,<time since the previous iteration's start>` (nanoseconds, see `ns`).
+
+use crate::message::Message;
+
+use std::collections::HashMap;
+use std::sync::Mutex;
+use std::thread::ThreadId;
+use std::time::Instant;
+
+struct Log {
+    committed: Vec<String>,
+    pending: Vec<String>,
+    significant: bool,
+    idle: u64,
+    iterations: u64,
+    last_begin: u128,
+    this_gap: u128,
+    idle_last_start: u128,
+    idle_max_gap: u128,
+}
+
+static LOGS: Mutex<Option<HashMap<ThreadId, Log>>> = Mutex::new(None);
+static EPOCH: Mutex<Option<Instant>> = Mutex::new(None);
+
+fn with_log<T>(f: impl FnOnce(&mut Log) -> T) -> Option<T> {
+    let id = std::thread::current().id();
+    let mut guard = LOGS.lock().ok()?;
+    let map = guard.get_or_insert_with(HashMap::new);
+    let log = map.entry(id).or_insert_with(|| Log {
+        committed: Vec::new(),
+        pending: Vec::new(),
+        significant: false,
+        idle: 0,
+        iterations: 0,
+        last_begin: 0,
+        this_gap: 0,
+        idle_last_start: 0,
+        idle_max_gap: 0,
+    });
+    Some(f(log))
+}
+
+/// Nanoseconds from the process-wide epoch (one hour before the first call, so that streams created before the loop
+/// started are not clamped) to `t`; 0 if `t` is earlier.
+pub fn ns(t: Instant) -> u128 {
+    let mut guard = EPOCH.lock().unwrap();
+    let epoch = *guard.get_or_insert_with(|| {
+        let now = Instant::now();
+        now.checked_sub(std::time::Duration::from_secs(3600)).unwrap_or(now)
+    });
+    t.saturating_duration_since(epoch).as_nanos()
+}
+
+/// Nanoseconds from the epoch to now.
+pub fn now_ns() -> u128 {
+    ns(Instant::now())
+}
+
+/// Starts the buffer of a new iteration.
+pub fn begin() {
+    let now = now_ns();
+    with_log(|l| {
+        l.pending.clear();
+        l.significant = false;
+        l.iterations += 1;
+        l.this_gap = if l.last_begin == 0 { 0 } else { now.saturating_sub(l.last_begin) };
+        l.last_begin = now;
+        let n = l.iterations;
+        l.pending.push(format!("it,{},{},{}", n, now, l.this_gap));
+    });
+}
+
+/// Records an event that does not by itself make the iteration worth storing.
+pub fn quiet(event: String) {
+    with_log(|l| l.pending.push(event));
+}
+
+/// Records an event and marks the iteration as one to store.
+pub fn push(event: String) {
+    with_log(|l| {
+        l.pending.push(event);
+        l.significant = true;
+    });
+}
+
+/// Ends the iteration: commits its buffer, or counts it as idle.
+pub fn end() {
+    with_log(|l| {
+        if l.significant {
+            if l.idle > 0 {
+                l.committed.push(format!("idle,{},{},{}", l.idle, l.idle_last_start, l.idle_max_gap));
+                l.idle = 0;
+                l.idle_max_gap = 0;
+            }
+            l.pending.push("end".to_string());
+            l.committed.append(&mut l.pending);
+        } else {
+            l.idle += 1;
+            l.idle_last_start = l.last_begin;
+            l.idle_max_gap = l.idle_max_gap.max(l.this_gap);
+            l.pending.clear();
+        }
+        l.significant = false;
+    });
+}
+
+/// Commits whatever is buffered (used when the loop is left in the middle of an iteration).
+pub fn flush() {
+    with_log(|l| {
+        if l.idle > 0 {
+            l.committed.push(format!("idle,{},{},{}", l.idle, l.idle_last_start, l.idle_max_gap));
+            l.idle = 0;
+            l.idle_max_gap = 0;
+        }
+        l.committed.append(&mut l.pending);
+        l.significant = false;
+    });
+}
+
+/// Removes and returns the committed events of the loop run by `thread`. Events of an iteration still in progress
+/// (for example one blocked inside a receive call) are returned too, after a `partial` marker.
+pub fn take(thread: ThreadId) -> Vec<String> {
+    let mut guard = LOGS.lock().unwrap();
+    let map = guard.get_or_insert_with(HashMap::new);
+    match map.remove(&thread) {
+        Some(mut l) => {
+            if !l.pending.is_empty() {
+                if l.idle > 0 {
+                    l.committed.push(format!("idle,{},{},{}", l.idle, l.idle_last_start, l.idle_max_gap));
+                }
+                l.committed.push("partial".to_string());
+                l.committed.append(&mut l.pending);
+            }
+            l.committed
+        }
+        None => Vec::new(),
+    }
+}
+
+/// Digest of a message: `t` (text) or `b` (binary), payload length, FNV-1a 64 of the payload.
+pub fn digest(message: &Message) -> String {
+    digest_parts(message.is_text(), message.bytes())
+}
+
+/// Digest from the parts of a message.
+pub fn digest_parts(text: bool, payload: &[u8]) -> String {
+    let mut h: u64 = 0xcbf29ce484222325;
+    for b in payload {
+        h ^= *b as u64;
+        h = h.wrapping_mul(0x100000001b3);
+    }
+    format!("{}{}x{:016x}", if text { 't' } else { 'b' }, payload.len(), h)
+}
